@@ -199,6 +199,9 @@ func (m *Models) Reach(fn *ssa.Function) map[*ssa.Function]bool {
 			continue
 		}
 		for _, e := range n.Out {
+			if _, isGo := e.Site.(*ssa.Go); isGo {
+				continue // a new goroutine is a root of its own
+			}
 			if !r[e.Callee.Func] && m.p.InPkg(e.Callee.Func) {
 				stack = append(stack, e.Callee.Func)
 			}
